@@ -208,6 +208,18 @@ def build(inst, name="verif"):
     from job_shop_lib import JobShopInstance
 
     nj = len(inst["durations"])
+    if nj >= 4 and (sum(map(len, inst["durations"])) + nj) % 5 == 0:
+        # another discarded layout: only two middle jobs swapped, so the first and the last
+        # operation already carry the ids they will get
+        order = list(range(nj)); order[1], order[2] = order[2], order[1]
+        tmp = JobShopInstance.from_matrices(
+            [list(inst["durations"][j]) for j in order],
+            [[list(m) for m in inst["machines"][j]] for j in order], name="discarded")
+        jobs = [None] * nj
+        for pos, j in enumerate(order):
+            jobs[j] = tmp.jobs[pos]
+        del tmp
+        return JobShopInstance(jobs, name=name)
     if nj >= 2 and (sum(map(len, inst["durations"])) * 7 + nj + int(sum(map(sum, inst["durations"])))) % 6 == 0:
         rot = [(j + 1) % nj for j in range(nj)]          # other job order
         tmp = JobShopInstance.from_matrices(
